@@ -95,6 +95,8 @@ var (
 	KeyP256b    *ecdsa.PrivateKey
 	KeyRSA2048b *rsa.PrivateKey
 	KeyRSA384   *rsa.PrivateKey
+	KeyP224     *ecdsa.PrivateKey
+	KeyP384     *ecdsa.PrivateKey
 )
 
 // HmacKeyLens are the lengths of the additional HMAC keys: 0 (the signers accept an empty key), 1, and around the digest size (32) and
@@ -132,6 +134,8 @@ func init() {
 	KeyRSA2048b = mustKey(keyRSA2048b).(*rsa.PrivateKey)
 	KeyRSA2048b.Precompute()
 	KeyRSA384 = mustKey(keyRSA384).(*rsa.PrivateKey)
+	KeyP224 = mustKey(keyP224).(*ecdsa.PrivateKey)
+	KeyP384 = mustKey(keyP384).(*ecdsa.PrivateKey)
 	KeyRSA1024.Precompute()
 	KeyRSA2048.Precompute()
 	signerList = buildSigners()
@@ -195,6 +199,10 @@ func buildSigners() []SignerSpec {
 			New: func() ndn.Signer { return security.NewEccSigner(false, false, 0, KeyP256b, keyName("eB")) }},
 		SignerSpec{Name: "rsa2048-keyB", Family: "rsa", KeyVariant: true, Validate: rs(KeyRSA2048b),
 			New: func() ndn.Signer { return security.NewRsaSigner(false, false, 0, KeyRSA2048b, keyName("rB")) }},
+		SignerSpec{Name: "ecdsa-p224", Family: "ecdsa", KeyVariant: true, Validate: ec(KeyP224),
+			New: func() ndn.Signer { return security.NewEccSigner(false, false, 0, KeyP224, keyName("e2")) }},
+		SignerSpec{Name: "ecdsa-p384", Family: "ecdsa", KeyVariant: true, Validate: ec(KeyP384),
+			New: func() ndn.Signer { return security.NewEccSigner(false, false, 0, KeyP384, keyName("e3")) }},
 		SignerSpec{Name: "rsa384-unusable", Family: "rsa", KeyVariant: true, FailsToSign: true, Validate: rs(KeyRSA384),
 			New: func() ndn.Signer { return security.NewRsaSigner(false, false, 0, KeyRSA384, keyName("r3")) }},
 		SignerSpec{Name: "rsa384-unusable-int", Family: "rsa", KeyVariant: true, FailsToSign: true, Validate: rs(KeyRSA384),
